@@ -2621,8 +2621,13 @@ class BaseInterpreter(Generic[TContext, TEvent]):
                     )
                     break
 
-            # ⚡ Transient `""` ("always") transitions.
-            if is_transient_check and "" in current.on:
+            # ⚡ Transient `""` ("always") transitions. They are candidates of
+            #    the eventless pass only: collected while a NAMED event is
+            #    selected, an enabled always-transition on a deeper state
+            #    out-ranked the event's own handler, so after an always-loop
+            #    had been cut at `maxIterations` every later event was
+            #    swallowed by it and the machine never answered again.
+            if is_explicit_transient_event and "" in current.on:
                 for t in current.on[""]:
                     if _passes(t):
                         eligible.append(t)
